@@ -10,10 +10,12 @@ import (
 func init() { propChecks["C07"] = checkC07 }
 
 var c07Books = []absBook{
-	{{"k/r1", []absIng{{"cal", 2}, {"fat", 0.5}}}, {"k/r2", []absIng{{"k/r1", 2}, {"prot", -1}}}, {"r0", nil}},
-	{{"k/r1", []absIng{{"cal", -1}, {"fat", 3}}}, {"k/r2", []absIng{{"cal", 2}, {"k/r1", 1}, {"cal", 1}}}, {"r0", []absIng{{"fat", 0}}}},
+	{{"k/r1", []absIng{{"cal", 2}, {"fat", 0.5}}}, {"k/r2", []absIng{{"k/r1", 2}, {"prot", -1}}}, {"r0", nil}, {"k", []absIng{{"cal", 3}, {"fat", 1}}}},
+	{{"k/r1", []absIng{{"cal", -1}, {"fat", 3}}}, {"k/r2", []absIng{{"cal", 2}, {"k/r1", 1}, {"cal", 1}}}, {"r0", []absIng{{"fat", 0}}}, {"k", []absIng{{"cal", 0.5}}}},
 }
-var c07Foods = []string{"k/r1", "k/r2", "r0", "u/v", "cal"}
+
+// "k" is a recipe whose name is a path-prefix of k/r1 and k/r2; "u" of u/v
+var c07Foods = []string{"k/r1", "k/r2", "r0", "u/v", "cal", "k", "u"}
 var c07Qty = []float64{1, -2, 0.5}
 
 func dec(s string) *big.Rat {
@@ -233,7 +235,12 @@ func checkC07(w *Worker) {
 			}
 			return true
 		}
-		if !cmpMaps("quantity-vs-balance-leaves", q, leaves, "report quantity", "bal leaves") {
+		loggedNames := []string{}
+		for name := range q {
+			loggedNames = append(loggedNames, name)
+		}
+		// leaf amounts are per-food amounts only when no logged food is a path-prefix of another
+		if prefixFree(loggedNames) && !cmpMaps("quantity-vs-balance-leaves", q, leaves, "report quantity", "bal leaves") {
 			return
 		}
 		if !cmpMaps("quantity-vs-csv-log", q, csvSum, "report quantity", "sum of csv log rows") {
